@@ -184,6 +184,35 @@ def main():
                     res["redir_answers"].append("U" if t is None else "P" if type(t) is Postponed else "F%d" % ids[id(t)] if id(t) in ids else "E:foreign")
                 except Exception as e:  # noqa: BLE001
                     res["redir_answers"].append("E:%s: %s" % (type(e).__name__, e))
+        # the same callback, but it answers Postponed the first time it is asked about some objects; a postponed
+        # reference is asked again (next round) until it is no longer postponed
+        if case.get("post_queries"):
+            from textx.scoping import Postponed
+            pending = set()
+
+            def logic_p(o):
+                if ids.get(id(o)) in pending:
+                    pending.discard(ids[id(o)])
+                    return Postponed()
+                return [o.owner] if type(o).__name__ == "Package" and getattr(o, "owner", None) is not None else []
+            prov_p = sp.FQN(scope_redirection_logic=logic_p)
+            res["post_answers"] = []
+            for r, text, T, post in case["post_queries"]:
+                pending.clear()
+                pending.update(post)
+                rounds = []
+                ref = ObjCrossRef(obj_name=text, cls=mm[T], position=0, scope_provider=None, match_rule_name="FQN")
+                for _ in range(len(post) + 2):
+                    before = sorted(pending)
+                    try:
+                        t = prov_p(objs[r], None, ref)
+                        a = "U" if t is None else "P" if type(t) is Postponed else "F%d" % ids[id(t)] if id(t) in ids else "E:foreign"
+                    except Exception as e:  # noqa: BLE001
+                        a = "E:%s: %s" % (type(e).__name__, e)
+                    rounds.append([before, a])
+                    if a != "P":
+                        break
+                res["post_answers"].append(rounds)
         # plain Python objects hung into the parsed model, then direct calls on the extended graph
         if case.get("py"):
             for d in case["py"]:
@@ -221,6 +250,13 @@ def run_multi(case, grammars, classes):
         prov = (sp.FQNImportURI() if kind == "imp" else sp.FQNImportURI(importAs=True) if kind == "impas"
                 else sp.FQNGlobalRepo(os.path.join(d, "lib*.m")))
         mm.register_scope_providers({"*.*": prov})
+        repo_b = None
+        if case.get("builtins"):
+            from textx.scoping import ModelRepository
+            repo_b = ModelRepository()
+            for f in case["builtins"]:
+                repo_b.add_model(mm.model_from_file(os.path.join(d, f)))
+            mm.builtin_models = repo_b
         try:
             main = mm.model_from_file(os.path.join(d, case["main"]))
         except Exception as e:  # noqa: BLE001
@@ -229,9 +265,12 @@ def run_multi(case, grammars, classes):
             return res
         repo = main._tx_model_repository
         models = [main] + [x for x in repo.local_models if x is not main]
-        for x in repo.all_models.filename_to_model.values():
+        for x in list(repo_b or []) + list(repo.all_models.filename_to_model.values()):
             if all(x is not y for y in models):
                 models.append(x)
+                for y in x._tx_model_repository.local_models:
+                    if all(y is not z for z in models):
+                        models.append(y)
         objs, ids = [], {}
         for x in models:
             res["roots"].append(len(objs))
@@ -240,6 +279,7 @@ def run_multi(case, grammars, classes):
         res["world"], _ = dump(objs, ids)
         for x in models:
             res["locals"][str(ids[id(x)])] = [ids[id(y)] for y in x._tx_model_repository.local_models]
+        res["builtins"] = [ids[id(x)] for x in (repo_b or [])]
         if kind == "impas":
             for o in objs:
                 if hasattr(o, "_tx_loaded_models"):
